@@ -236,7 +236,10 @@ def plan(tier, seed):
     st_chunks, cov = fscommon.state_chunks(tier, seed, extra_roots=fscommon.SEED_STATES)
     for c in st_chunks:
         chunks.append(('std' if tier == 'quick' else 'std-thorough', c))
-    cs_chunks, cov2 = fscommon.state_chunks(tier, seed, quick=(2, 2, 1), thorough=(2, 3, 8), names=('a', 'A', 'b'))
+    # two directories differing only in case, each with two more levels below (a literal first segment has several
+    # starting points under IGNORECASE)
+    cs_chunks, cov2 = fscommon.state_chunks(tier, seed, quick=(2, 2, 1), thorough=(2, 3, 8), names=('a', 'A', 'b'),
+                                            extra_roots=[['a/', 'a/b/', 'a/b/a', 'A/', 'A/b/', 'A/b/a'], ['A', 'a/', 'a/b/', 'a/b/a', 'b/']])
     for c in cs_chunks:
         chunks.append(('case', c))
     cov['case_layer'] = cov2
@@ -272,6 +275,10 @@ def case_patterns():
         out.append(fspat.build([a], T, trailing=True))
         for b in names:
             out.append(fspat.build([a, b], T))
+    # a literal first segment followed by two more parts (every starting point gets the whole remaining pattern)
+    T3 = dict(T, b=(fspat.B,))
+    for names3 in (['a', 'b', 'a'], ['A', 'b', 'a'], ['a', '*', 'a'], ['a', '**', 'a'], ['A', 'b', '*'], ['a', 'b', 'A']):
+        out.append(fspat.build(names3, T3))
     from .. import pat
     return [(pat.render(a), a, set()) for a in out]
 
